@@ -6,13 +6,14 @@ import (
 	"strings"
 	"time"
 
+	ipfslog "berty.tech/go-ipfs-log"
 	"berty.tech/go-orbit-db/iface"
 	"berty.tech/go-orbit-db/stores/operation"
 )
 
 func init() {
 	Register(&Scenario{Prop: "C06", Name: "kv-lww", Run: scenC06, SoftParks: true, Weight: 1,
-		Rule: "1-3 replicas of a key-value store (one operation in ten arms a disk error for the next write of the merged heads on one replica: the merge itself stands, view and log must still agree); 3-14 (thorough 3-40) Put/Delete on 1-5 keys (repeated keys, deletes of absent keys, re-puts, empty and binary values), one operation in five a burst of 2-3 concurrent local writers stepped through the write path or free-running (the client of one of them may give up mid-write: its context is cancelled while it sits between two steps), 0-2 readers (Get of one key, All) run beside the writers of a burst and, one operation in four, beside the merges of the following steps (what All returns must be the view of one state between its call and its return: the replay of the entries the view last agreed with plus any subset of those that came since); with replication under the swarm faults, failing fetches / gap-fill and kernel stalls; at every quiescent step each replica's Get/All must equal the last-writer-wins replay of its own log by the independent model, and the log order must respect the causal past recorded by the kernel; non-trivial = >=3 writes and (with several replicas) >=1 replicated entry"})
+		Rule: "1-3 replicas of a key-value store (one operation in ten arms a disk error for the next write of the merged heads on one replica: the merge itself stands, view and log must still agree); 3-14 (thorough 3-40) Put/Delete on 1-5 keys (repeated keys, deletes of absent keys, re-puts, empty and binary values), one operation in five a burst of 2-3 concurrent local writers stepped through the write path or free-running (the client of one of them may give up mid-write: its context is cancelled while it sits between two steps), 0-2 readers (Get of one key, All) run beside the writers of a burst and, one operation in four, beside the merges of the following steps (what All returns must be the view of one state between its call and its return: the replay of the entries the view last agreed with plus any subset of those that came since); with replication under the swarm faults, failing fetches / gap-fill and kernel stalls; while a burst is under way, at every point where all its writers are at rest or parked, the view must hold what the writers that have returned wrote (replay of a part of the log that includes their entries); at every quiescent step each replica's Get/All must equal the last-writer-wins replay of its own log by the independent model, and the log order must respect the causal past recorded by the kernel; non-trivial = >=3 writes and (with several replicas) >=1 replicated entry"})
 }
 
 var c06Keys = []string{"a", "b", "ключ", "k k", "z/1"}
@@ -80,6 +81,30 @@ func scenC06(k *K) {
 		c.CheckCausalOrder("C06")
 	}
 	k.Invariant = func() { check("step") }
+	// a Put or Delete that has returned is in the view from then on, whatever other writers
+	// of the same burst are still doing (parked between their append and their rebuild, or
+	// not there yet): the view is the replay of the entries it last agreed with, the entries
+	// of the writers that have returned, and some of the rest of the log
+	c.OnBurstStep = func(node int, acked []ipfslog.Entry) {
+		if len(acked) == 0 {
+			return
+		}
+		kv, _ := c.Stores[node].(iface.KeyValueStore)
+		if kv == nil {
+			return
+		}
+		base := map[string]bool{}
+		for h := range agreed[node] {
+			base[h] = true
+		}
+		for _, e := range acked {
+			base[e.GetHash().String()] = true
+		}
+		k.W.Stat("view-judged-while-other-writers-in-flight")
+		if ok, why := ReadAtSomeState(k, kv, base, KVState(kv)); !ok {
+			k.Failf("C06/acked-write-not-in-view", "n%d: %d writer(s) of a burst have returned (%v) while others are still at work, and All()=%s is not the replay of any part of the log that holds their entries (%s)", node, len(acked), EntryNames(acked), MapStr(KVState(kv)), why)
+		}
+	}
 	overrides := 0
 	c.BurstCancel = k.C.Chance(1, 2)
 	readerBase := map[*Op]map[string]bool{}
